@@ -147,16 +147,12 @@ class Recorder(object):
             "args": [[k, str(v)] for k, v in sorted(args.arguments().items())],
             "opts": [[k, str(opts[k])] for k in ("flag", "num") if k in opts],
         })
-        if self.scope == "indent":
-            with io.indent(2):
-                return self._finish()
-        if self.scope == "increment":
-            with io.increment_indent(2):
-                return self._finish()
-        if self.scope == "output":
-            with io.output.indent(2):
-                return self._finish()
-        return self._finish()
+        if self.scope == "top":
+            return self._finish()
+        scope = {"indent": io.indent, "increment": io.increment_indent, "output": io.output.indent}[self.scope](2)
+        with scope:
+            return self._finish()
+        return None  # only reached when the scope swallowed what _finish() raised
 
     def _finish(self):
         if self.outcome["t"] == "raise":
